@@ -15,9 +15,16 @@
 (*           scope provider answers Postponed before it resolves           *)
 (*   files : Seq of file names, "" = loaded from a string without name     *)
 (*   procs : rules that have an object processor                           *)
-(*   repl  : rules whose processor returns a replacement value             *)
-(*   fault : [on, proc ("obj"|"match"), obj, rule, exc, wrap, sline, scol, *)
-(*            snchar, sfile, mfile, mline, mcol]                           *)
+(*   repl  : rules whose processor returns a replacement value, replk the  *)
+(*           kind of that value ("str" = a string naming rule and object,  *)
+(*           otherwise a falsy Python value: "zero" "empty" "list" ...)    *)
+(*   fault : [on, proc ("obj"|"match"), obj, rule, exc, wrap,              *)
+(*            hline, hcol, hnchar, hfile (which fields the raised error    *)
+(*            carries), sline, scol, snchar, sfile (their values),         *)
+(*            mfile, mline, mcol (where the failing match starts)]         *)
+(* An object of kind "Plain" is a plain value (the match-rule alternative  *)
+(* of an abstract rule) held by a containment attribute: no rule of its    *)
+(* own, no span of its own, only the declared rule's processor sees it.    *)
 (*                                                                         *)
 (* Meta gives, per object kind (= the object's own rule), its containment  *)
 (* attributes in meta-attribute order: [name, many, decl] with decl the    *)
@@ -73,9 +80,10 @@ SeqOfSet(S) == IF S = {} THEN <<>>
 Count(s, P(_)) == Cardinality({i \in 1..Len(s) : P(s[i])})
 IndexIn(s, x) == CHOOSE i \in 1..Len(s) : s[i] = x
 
-NotJudged == 0 - 1      \* a field the property says nothing about
-NoNum == 0              \* "None" for line / col / nchar
-NoFile == ""            \* "None" for a file name
+NotJudged == 0 - 1              \* a numeric field the property says nothing about
+NotJudgedFile == "<not judged>"
+NoNum == 0 - 2                  \* "None" for line / col / nchar (0 is a value a processor may supply)
+NoFile == "<none>"              \* "None" for a file name ("" is a value a processor may supply)
 
 ----------------------------------------------------------------------------
 \* the forest
@@ -109,11 +117,15 @@ CallsOf(s, o) ==
   \o (IF HasProc(s, Decl(s, o)) THEN <<Decl(s, o)>> ELSE <<>>)
 ExpectedCount(s, o, r) == Cardinality({i \in 1..Len(CallsOf(s, o)) : CallsOf(s, o)[i] = r})
 Item(o) == "o" \o ToString(o)
-ReplItem(r, o) == "r:" \o r \o ":" \o ToString(o)
+ReplKind(s, r) == s.replk[IndexIn(s.repl, r)]
+\* the value the processor of rule r returns for object o: a string naming both, or a
+\* falsy value (which still is "not None" and therefore replaces the object)
+ReplItem(s, r, o) == IF ReplKind(s, r) = "str" THEN "r:" \o r \o ":" \o ToString(o)
+                     ELSE "f:" \o ReplKind(s, r)
 \* what the containing attribute holds afterwards: the own-rule result wins
 Result(s, o) ==
-  IF Kind(s, o) # Decl(s, o) /\ HasProc(s, Kind(s, o)) /\ Replaces(s, Kind(s, o)) THEN ReplItem(Kind(s, o), o)
-  ELSE IF HasProc(s, Decl(s, o)) /\ Replaces(s, Decl(s, o)) THEN ReplItem(Decl(s, o), o)
+  IF Kind(s, o) # Decl(s, o) /\ HasProc(s, Kind(s, o)) /\ Replaces(s, Kind(s, o)) THEN ReplItem(s, Kind(s, o), o)
+  ELSE IF HasProc(s, Decl(s, o)) /\ Replaces(s, Decl(s, o)) THEN ReplItem(s, Decl(s, o), o)
   ELSE Item(o)
 
 CallRec(o, r) == [obj |-> o, rule |-> r, linked |-> TRUE, inited |-> TRUE]
@@ -151,33 +163,38 @@ InitCont(s) == [o \in 1..N(s) |-> [k \in 1..Len(SlotsOf(s, o)) |->
 ----------------------------------------------------------------------------
 \* C33: the error-location decision table
 \*   exc = "txnoloc"  the processor raises TextXError without location
-\*         "txsome"   ... with the fields sline/scol/snchar/sfile that are not NoNum/NoFile
+\*         "txsome"   ... carrying the fields flagged by hline/hcol/hnchar/hfile
 \*         "other"    another exception
 \*   wrap             the processor is decorated with textxerror_wrap
+FileName(s, f) == IF s.files[f] = "" THEN NoFile ELSE s.files[f]
+PlainSite(s) == s.fault.proc = "obj" /\ Kind(s, s.fault.obj) = "Plain"
+\* where the processed text is; a plain value has no location of its own
 Loc(s) ==
   LET f == s.fault IN
-  IF f.proc = "obj"
-  THEN [file |-> s.files[FileOf(s, f.obj)], line |-> s.objs[f.obj].line, col |-> s.objs[f.obj].col,
+  IF PlainSite(s)
+  THEN [file |-> NotJudgedFile, line |-> NotJudged, col |-> NotJudged, nchar |-> NotJudged]
+  ELSE IF f.proc = "obj"
+  THEN [file |-> FileName(s, FileOf(s, f.obj)), line |-> s.objs[f.obj].line, col |-> s.objs[f.obj].col,
         nchar |-> s.objs[f.obj].end - s.objs[f.obj].start]
-  ELSE [file |-> s.files[f.mfile], line |-> f.mline, col |-> f.mcol, nchar |-> NotJudged]
+  ELSE [file |-> FileName(s, f.mfile), line |-> f.mline, col |-> f.mcol, nchar |-> NotJudged]
 
 ErrLoc(s, D) ==
   LET f == s.fault
       loc == Loc(s)
-      located(sl, scl, sn, sf, byWrapper) ==
+      located(hl, hc, hn, hf, byWrapper) ==
         [cls |-> "TextXError",
-         filename |-> IF sf # NoFile THEN sf ELSE loc.file,
-         line |-> IF sl # NoNum THEN sl ELSE loc.line,
-         col |-> IF scl # NoNum THEN scl ELSE loc.col,
-         nchar |-> IF sn # NoNum THEN sn
-                   ELSE IF f.proc = "match" THEN NotJudged
+         filename |-> IF hf THEN f.sfile ELSE loc.file,
+         line |-> IF hl THEN f.sline ELSE loc.line,
+         col |-> IF hc THEN f.scol ELSE loc.col,
+         nchar |-> IF hn THEN f.snchar
+                   ELSE IF f.proc = "match" \/ PlainSite(s) THEN NotJudged
                    ELSE IF "NcharNotFilled" \in D /\ ~byWrapper THEN NoNum
                    ELSE loc.nchar]
   IN CASE f.exc = "other" /\ ~f.wrap ->
             [cls |-> "Other", filename |-> NoFile, line |-> NoNum, col |-> NoNum, nchar |-> NoNum]
-       [] f.exc = "other" /\ f.wrap -> located(NoNum, NoNum, NoNum, NoFile, f.proc = "obj")
-       [] f.exc = "txnoloc" -> located(NoNum, NoNum, NoNum, NoFile, FALSE)
-       [] f.exc = "txsome" -> located(f.sline, f.scol, f.snchar, f.sfile, FALSE)
+       [] f.exc = "other" /\ f.wrap -> located(FALSE, FALSE, FALSE, FALSE, f.proc = "obj")
+       [] f.exc = "txnoloc" -> located(FALSE, FALSE, FALSE, FALSE, FALSE)
+       [] f.exc = "txsome" -> located(f.hline, f.hcol, f.hnchar, f.hfile, FALSE)
 NoErr == [cls |-> "-", filename |-> NoFile, line |-> NoNum, col |-> NoNum, nchar |-> NoNum]
 
 ----------------------------------------------------------------------------
@@ -206,7 +223,8 @@ XrefList(s, order, D) ==
   ELSE SortSeq(es, LAMBDA a, b : a.start < b.start)
 Xrefs(s, D) == [f \in 1..NF(s) |-> XrefList(s, ResOrder(s, f), D)]
 
-FileObjs(s, f) == {o \in Objs(s) : FileOf(s, o) = f}
+\* the objects of file f (plain values are not objects and have no entry)
+FileObjs(s, f) == {o \in Objs(s) : FileOf(s, o) = f /\ Kind(s, o) # "Plain"}
 Holder(s, f, sp, D) ==
   LET C == {o \in FileObjs(s, f) : Span(s, o) = sp} IN
   IF "RuleDictOuterOverwrites" \in D
@@ -338,27 +356,29 @@ C13_WalkIsBehaviour ==
     /\ \A o \in Objs(sc) : Cardinality({i \in 1..Len(w) : w[i].obj = o}) = Len(CallsOf(sc, o))
 
 \* C33: stated on the error, not through ErrLoc
-Supplied == IF sc.fault.exc = "txsome"
-            THEN [line |-> sc.fault.sline, col |-> sc.fault.scol, nchar |-> sc.fault.snchar, file |-> sc.fault.sfile]
-            ELSE [line |-> NoNum, col |-> NoNum, nchar |-> NoNum, file |-> NoFile]
+Has == IF sc.fault.exc = "txsome"
+       THEN [line |-> sc.fault.hline, col |-> sc.fault.hcol, nchar |-> sc.fault.hnchar, file |-> sc.fault.hfile]
+       ELSE [line |-> FALSE, col |-> FALSE, nchar |-> FALSE, file |-> FALSE]
 Converted == sc.fault.exc # "other" \/ sc.fault.wrap
 C33_Located ==
   pc = "failed" =>
     IF ~Converted THEN err.cls = "Other"
     ELSE LET f == sc.fault
              o == f.obj
-             sup == Supplied
          IN /\ err.cls = "TextXError"
-            /\ err.filename = (IF sup.file # NoFile THEN sup.file
-                               ELSE sc.files[IF f.proc = "obj" THEN FileOf(sc, o) ELSE f.mfile])
-            /\ err.line = (IF sup.line # NoNum THEN sup.line
-                           ELSE IF f.proc = "obj" THEN sc.objs[o].line ELSE f.mline)
-            /\ err.col = (IF sup.col # NoNum THEN sup.col
-                          ELSE IF f.proc = "obj" THEN sc.objs[o].col ELSE f.mcol)
+            \* what the processor supplied is kept, even when it is 0 or ""
+            /\ Has.file => err.filename = f.sfile
+            /\ Has.line => err.line = f.sline
+            /\ Has.col => err.col = f.scol
+            /\ Has.nchar => err.nchar = f.snchar
+            \* the rest is the place of the processed object or match
+            /\ ~PlainSite(sc) =>
+                 /\ ~Has.file => err.filename = FileName(sc, IF f.proc = "obj" THEN FileOf(sc, o) ELSE f.mfile)
+                 /\ ~Has.line => err.line = (IF f.proc = "obj" THEN sc.objs[o].line ELSE f.mline)
+                 /\ ~Has.col => err.col = (IF f.proc = "obj" THEN sc.objs[o].col ELSE f.mcol)
 C33_Nchar ==
-  pc = "failed" /\ Converted /\ sc.fault.proc = "obj" =>
-    err.nchar = (IF Supplied.nchar # NoNum THEN Supplied.nchar
-                 ELSE sc.objs[sc.fault.obj].end - sc.objs[sc.fault.obj].start)
+  pc = "failed" /\ Converted /\ sc.fault.proc = "obj" /\ ~PlainSite(sc) /\ ~Has.nchar =>
+    err.nchar = sc.objs[sc.fault.obj].end - sc.objs[sc.fault.obj].start
 \* nothing is called after the failing processor, nothing is replaced by it
 C33_StopsAtFault ==
   pc = "failed" /\ sc.fault.proc = "obj" =>
